@@ -78,3 +78,26 @@ Lemma mod_apps_expected : mod_apps_shape =
    "return outputSlice"].
 Proof. reflexivity. Qed.
 Local Close Scope string_scope.
+
+(* writeModifySQLForATable, statement by statement: the loop over the old column names (DROP COLUMN, key flags of dropped
+   columns), the loop over the new column names, DROP CONSTRAINT of the key when it existed and changed, the DROP
+   COLUMN statements, ADD CONSTRAINT .. PRIMARY KEY when the key changed and a key column is left (Script.modify_table) *)
+Local Open Scope string_scope.
+Lemma mod_table_expected : mod_table_shape =
+  [
+   "var primaryKeys []string";
+   "dropColumnQueries := """"";
+   "attrDefsNew := entityNew.AttrDefs";
+   "attrDefsOld := entityOld.AttrDefs";
+   "attrNamesListOld := sortColumnNamesIntoList(attrDefsOld)";
+   "attrNamesListNew := sortColumnNamesIntoList(attrDefsNew)";
+   "primaryKeyChanged := false";
+   "primaryKeyExisted := false";
+   "for _, attrNameOld := range attrNamesListOld { attrTypeOld := attrDefsOld[attrNameOld] attrTypeNew := attrDefsNew[attrNameOld] if attrTypeNew == nil { _, wasDeletedAttrAPrimaryKey := isAutoIncrementAndPrimaryKey(attrTypeOld) if wasDeletedAttrAPrimaryKey { primaryKeyChanged = true primaryKeyExisted = true } dropColumnQueries += fmt.Sprintf(""ALTER TABLE %s DROP COLUMN %s;\n"", tableName, attrNameOld) } }";
+   "for _, attrNameNew := range attrNamesListNew { attrTypeOld := attrDefsOld[attrNameNew] attrTypeNew := attrDefsNew[attrNameNew] if attrTypeOld == nil { var foreignKeyConstraints []string str, isNewColumnPK := v.writeCreateSQLForAColumn(attrTypeNew, tableName, attrNameNew, &primaryKeys, &foreignKeyConstraints, visitedAttributes) str = strings.TrimSpace(str) str = str[:len(str)-1] v.stringBuilder.WriteString(fmt.Sprintf(""ALTER TABLE %s ADD COLUMN %s;\n"", tableName, str)) if len(foreignKeyConstraints) > 0 { constraint := foreignKeyConstraints[0] constraint = constraint[:len(constraint)-1] v.stringBuilder.WriteString(fmt.Sprintf(""ALTER TABLE %s ADD %s;\n"", tableName, strings.TrimSpace(constraint))) } if isNewColumnPK { primaryKeyChanged = true } } if attrTypeOld != nil { primaryKeyChangedByColumn, wasOldPrimaryKey := v.writeModifySQLForAColumn(attrTypeOld, attrTypeNew, tableName, attrNameNew, &primaryKeys, visitedAttributes) if primaryKeyChangedByColumn { primaryKeyChanged = true } if wasOldPrimaryKey { primaryKeyExisted = true } } }";
+   "pkConstraintName := strings.ToUpper(tableName + ""_PK"")";
+   "if primaryKeyExisted && primaryKeyChanged { v.stringBuilder.WriteString(fmt.Sprintf(""ALTER TABLE %s DROP CONSTRAINT %s;\n"", tableName, pkConstraintName)) }";
+   "v.stringBuilder.WriteString(dropColumnQueries)";
+   "if primaryKeyChanged && len(primaryKeys) > 0 { pk := v.getPrimaryKeyString(primaryKeys) v.stringBuilder.WriteString(fmt.Sprintf(""ALTER TABLE %s ADD CONSTRAINT %s PRIMARY KEY(%s);\n"", tableName, pkConstraintName, pk)) }"].
+Proof. reflexivity. Qed.
+Local Close Scope string_scope.
